@@ -445,10 +445,45 @@ def run(ctx):
                       {"correspondence": "restore-exec", "case": desc, "storage": json_group(c["group"]), "exit": r["exit"],
                        "errors": r["errors"], "output": r["out"]}, failing_input=False)
     ctx.traces = len(cases)
+    if not ctx.violations:
+        big_part(ctx)
     paths_part(ctx)
     ctx.assumptions += ["SHA-512 is collision-free on the generated contents (the model's hash is the content itself)",
                         "tar / zstd crates read back what the independent encoder wrote",
                         "chown / chmod / utimensat do what they say (observed: the restored lstat is compared)"]
+
+
+def big_part(ctx):
+    """a backup of 3000 files whose manifest spans several compression blocks: intact it restores completely; with the manifest cut off in
+    the middle (a decodable prefix, then a broken stream) restore must fail instead of silently producing fewer files"""
+    n = 3000
+    lines, ents = [], [{"type": "dir", "path_hex": b"big".hex(), "mode": 0o755, "uid": 0, "gid": 0, "mtime": 5}]
+    for i in range(n):
+        data = b"content of file %05d " % i * (1 + i % 3)
+        lines.append({"unique": True, "hash": slevel.sha512(data), "fp": [1, 2, 3 + i], "size": len(data), "path_hex": (b"/big/f%05d" % i).hex()})
+        ents.append({"type": "file", "path_hex": (b"big/f%05d" % i).hex(), "mode": 0o644, "uid": 0, "gid": 0, "mtime": 7, "data_hex": data.hex()})
+    for label, extra in (("intact", {}), ("manifest cut to 60%", {"meta_truncate_permille": 600})):
+        with slevel.Sandbox("c11") as sb:
+            st = sb.path("st")
+            b = {"name": bname(1), "manifest": lines, "entries": ents}
+            b.update(extra)
+            sb.write_storage({"groups": [{"name": GROUP, "backups": [b]}]}, st)
+            rc, out = sb.vsb(["restore", os.path.join(st, GROUP, bname(1)), sb.path("out")], timeout=300)
+            created = len([x for x in os.listdir(sb.path("out", "big"))]) if os.path.isdir(sb.path("out", "big")) else 0
+            ctx.evaluations += 1
+            ctx.count("big-manifest." + label.replace(" ", "-"))
+            ctx.nontrivial.add(("big-manifest", label))
+            if rc == 0 and created != n:
+                ctx.violation("restore", "exit 0 but only %d of the %d files recorded in the manifest were created (%s)" % (created, n, label),
+                              {"files": n, "corruption": label, "output": out[-400:]})
+                return
+            if label == "intact" and rc != 0:
+                ctx.violation("restore", "correspondence big-backup-restores no longer checks: an intact backup of %d files does not restore: %s" % (n, slevel.errors_of(out)[:2]),
+                              {"files": n}, failing_input=False)
+                return
+            if rc != 0 and not slevel.errors_of(out):
+                ctx.violation("restore", "non-zero exit without any error-level report (%s)" % label, {"files": n})
+                return
 
 
 def paths_part(ctx):
